@@ -85,5 +85,7 @@ int vs_mutex_trylock(pthread_mutex_t *m){ struct vmx *x=(struct vmx*)m; assert(x
 int vs_self(void){ return me; }
 int vs_create(pthread_t *pt,const pthread_attr_t *a,void *(*fn)(void*),void *arg){ (void)a; yield_op(OP_CREATE,0,0); assert(nT<MAXT); int id=nT++; struct vthr *x=&T[id]; memset(x,0,sizeof *x); x->used=1; x->fn=fn; x->arg=arg; x->op=OP_START; sem_init(&x->go,0,0);
   int live=0; for(int t=1;t<nT;t++) if(T[t].used&&!T[t].finished) live++; if(live>vs_max_threads_seen) vs_max_threads_seen=live;
-  int r=pthread_create(&x->pt,NULL,tramp,(void*)(long)id); assert(r==0); memcpy(pt,&id,sizeof id); return 0; }
+  int r=pthread_create(&x->pt,NULL,tramp,(void*)(long)id); assert(r==0); memcpy(pt,&id,sizeof id);
+  if(vs_post) yield_op(OP_MISC,0,0);   /* the code after a create is a separate step: the new thread may run before its creator's next statement */
+  return 0; }
 int vs_join(pthread_t pt,void **ret){ int id; memcpy(&id,&pt,sizeof id); yield_op(OP_JOIN,id,0); assert(T[id].finished); pthread_join(T[id].pt,NULL); T[id].reaped=1; if(ret)*ret=T[id].ret; return 0; }
